@@ -65,7 +65,7 @@ Ltac fin := unfold Linv; cbn; spec_inv; inv_solve.
 
 (* the case analysis every statement about one poll goes through: the invariant prunes the
    combinations of (future state, inner-call state, gate) that cannot occur *)
-Ltac poll_cases c tb :=
+Ltac poll_cases c :=
   match goal with H : Linv _ _ _ ?l |- _ =>
     let H1 := fresh "H1" in let H2 := fresh "H2" in let H3 := fresh "H3" in
     let H4 := fresh "H4" in let H5 := fresh "H5" in let H6 := fresh "H6" in
@@ -79,18 +79,18 @@ Ltac poll_cases c tb :=
     destruct cs0 as [|dl| |]; cbn;
     [ destruct (H1 eq_refl) as (-> & -> & ->);
       destruct (cancel c) eqn:Ec; destruct g0 as [[]|]; cbn;
-      try destruct (_ <=? _) eqn:E; try destruct tb; cbn
+      try destruct (_ <=? _) eqn:E; cbn
     | destruct (H2 dl eq_refl) as (a & -> & ->);
       destruct (cancel c) eqn:Ec;
       [ assert (in0 = IRunning) as -> by (apply H4; eauto);
         destruct g0 as [[]|]; cbn; try destruct (_ <=? _) eqn:E; cbn
       | destruct in0 as [| |oi|]; destruct g0 as [[]|]; cbn;
-        try destruct (_ <=? _) eqn:E; try destruct tb; try destruct oi; cbn ]
+        try destruct (_ <=? _) eqn:E; try destruct oi; cbn ]
     | | ]
   end.
 
-Lemma linv_poll c i t l tb : Linv c i t l -> Linv c i t (fst (lpoll c i t l tb)).
-Proof. intros H. poll_cases c tb; fin. Qed.
+Lemma linv_poll c i t l : Linv c i t l -> Linv c i t (fst (lpoll c i t l)).
+Proof. intros H. poll_cases c; fin. Qed.
 
 Lemma linv_drop c i t l : Linv c i t l -> Linv c i t (ldrop c l).
 Proof.
@@ -125,10 +125,10 @@ Proof. cbn. apply upd_same. Qed.
 Lemma callers_on_other s i l j : j <> i -> callers (on s i l) j = callers s j.
 Proof. intros H. cbn. apply upd_other. exact H. Qed.
 
-Lemma step_poll c s i tb :
-  step c s (Poll i tb) =
-  (on s i (fst (lpoll c i (now s) (callers s i) tb)), snd (lpoll c i (now s) (callers s i) tb)).
-Proof. cbn [step]. destruct (lpoll c i (now s) (callers s i) tb). reflexivity. Qed.
+Lemma step_poll c s i :
+  step c s (Poll i) =
+  (on s i (fst (lpoll c i (now s) (callers s i))), snd (lpoll c i (now s) (callers s i))).
+Proof. cbn [step]. destruct (lpoll c i (now s) (callers s i)). reflexivity. Qed.
 
 Lemma inv_on c s i l : Inv c s -> Linv c i (now s) l -> Inv c (on s i l).
 Proof.
@@ -143,7 +143,7 @@ Proof. split; [cbn; lia|]. intros i. apply linv_init. cbn. lia. Qed.
 
 Lemma inv_step c s e : Inv c s -> Inv c (step_st c s e).
 Proof.
-  intros HI. unfold step_st. destruct e as [j|j tb|j|d|j o].
+  intros HI. unfold step_st. destruct e as [j|j|j|d|j o].
   - exact HI.
   - rewrite step_poll. cbn [fst]. apply inv_on; [exact HI|]. apply linv_poll. apply HI.
   - cbn [step fst]. apply inv_on; [exact HI|]. apply linv_drop. apply HI.
@@ -159,40 +159,36 @@ Lemma linv_run c evs i : Linv c i (now (run c evs)) (callers (run c evs) i).
 Proof. apply inv_run. Qed.
 
 (* ---------- one poll, locally ---------- *)
-Lemma l_no_early_timeout c i t l tb :
-  Linv c i t l -> r (snd (lpoll c i t l tb)) = 3 -> lgate l <> Some OPanic ->
-  exists a, larrival (fst (lpoll c i t l tb)) = Some a /\ a + tmo c i <= t.
+Lemma l_no_early_timeout c i t l :
+  Linv c i t l -> r (snd (lpoll c i t l)) = 3 -> lgate l <> Some OPanic ->
+  exists a, larrival (fst (lpoll c i t l)) = Some a /\ a + tmo c i <= t.
 Proof.
-  intros H. poll_cases c tb; intros Hr Hg; try discriminate; try congruence;
+  intros H. poll_cases c; intros Hr Hg; try discriminate; try congruence;
     try (eexists; split; [reflexivity|lia]).
   all: spec_inv; try congruence; exfalso; apply Hg; auto.
 Qed.
 
-Lemma l_result c i t l tb o :
+Lemma l_result c i t l o :
   Linv c i t l -> lgate l = Some o -> o <> OPanic ->
   (cancel c = true /\ (lcs l = Created \/ exists dl, lcs l = Active dl)) \/
-  (cancel c = false /\ exists dl, lcs l = Active dl /\ t < dl) ->
-  snd (lpoll c i t l tb) = result i o /\
-  lcs (fst (lpoll c i t l tb)) = Done /\ linner (fst (lpoll c i t l tb)) = IFinished o.
+  (cancel c = false /\ exists dl, lcs l = Active dl) ->
+  snd (lpoll c i t l) = result i o /\
+  lcs (fst (lpoll c i t l)) = Done /\ linner (fst (lpoll c i t l)) = IFinished o.
 Proof.
-  intros H. poll_cases c tb; intros Hg Ho Hc; try discriminate; try congruence;
+  intros H. poll_cases c; intros Hg Ho Hc; try discriminate; try congruence;
     try (injection Hg as <-); try (exfalso; apply Ho; reflexivity);
-    try (destruct Hc as [[Hc1 Hc2]|[Hc1 [d [Hc2 Hc3]]]]; try discriminate;
-         try (destruct Hc2 as [Hc2|[d Hc2]]; discriminate);
-         try (injection Hc2 as <-; lia));
+    try (destruct Hc as [[Hc1 Hc2]|[Hc1 [d Hc2]]]; try discriminate;
+         try (destruct Hc2 as [Hc2|[d Hc2]]; discriminate));
     spec_inv; try tauto; try congruence; auto.
-  all: try (destruct Hc as [[Hc1 Hc2]|[Hc1 [d [Hc2 Hc3]]]]; try discriminate;
-         try (destruct Hc2 as [Hc2|[d Hc2]]; discriminate);
-         try (injection Hc2 as <-; lia)).
   all: try (exfalso; firstorder congruence).
 Qed.
 
-Lemma l_timeout c i t l tb :
+Lemma l_timeout c i t l :
   Linv c i t l -> lgate l = None ->
   (exists dl, lcs l = Active dl /\ dl <= t) \/ (lcs l = Created /\ tmo c i <= 0) ->
-  snd (lpoll c i t l tb) = timed_out /\ lcs (fst (lpoll c i t l tb)) = Done.
+  snd (lpoll c i t l) = timed_out /\ lcs (fst (lpoll c i t l)) = Done.
 Proof.
-  intros H. poll_cases c tb; intros Hg Hc; try discriminate; auto;
+  intros H. poll_cases c; intros Hg Hc; try discriminate; auto;
     try (destruct Hc as [[d [Hc1 Hc2]]|[Hc1 Hc2]]; try discriminate;
          try (injection Hc1 as <-); lia);
     spec_inv; try congruence.
@@ -201,13 +197,13 @@ Proof.
   all: try (exfalso; firstorder congruence).
 Qed.
 
-Lemma l_pending c i t l tb :
+Lemma l_pending c i t l :
   Linv c i t l -> lgate l = None ->
   (exists dl, lcs l = Active dl /\ t < dl) \/ (lcs l = Created /\ 0 < tmo c i) ->
-  snd (lpoll c i t l tb) = pending /\
-  exists dl, lcs (fst (lpoll c i t l tb)) = Active dl /\ t < dl.
+  snd (lpoll c i t l) = pending /\
+  exists dl, lcs (fst (lpoll c i t l)) = Active dl /\ t < dl.
 Proof.
-  intros H. poll_cases c tb; intros Hg Hc; try discriminate;
+  intros H. poll_cases c; intros Hg Hc; try discriminate;
     try (split; [reflexivity|eexists; split; [reflexivity|lia]]);
     try (destruct Hc as [[d [Hc1 Hc2]]|[Hc1 Hc2]]; try discriminate;
          try (injection Hc1 as <-); lia);
@@ -216,32 +212,32 @@ Proof.
 Qed.
 
 (* both the inner result and the timer are ready *)
-Lemma l_tie c i t l tb o dl :
+Lemma l_tie c i t l o dl :
   Linv c i t l -> lcs l = Active dl -> lgate l = Some o -> o <> OPanic -> dl <= t ->
-  snd (lpoll c i t l tb) = (if cancel c then result i o else if tb then timed_out else result i o) /\
-  lcs (fst (lpoll c i t l tb)) = Done.
+  snd (lpoll c i t l) = result i o /\
+  lcs (fst (lpoll c i t l)) = Done.
 Proof.
-  intros H. poll_cases c tb; intros Hc Hg Ho Hd; try discriminate;
+  intros H. poll_cases c; intros Hc Hg Ho Hd; try discriminate;
     try (injection Hc as <-); try (injection Hg as <-); try lia; auto;
     try (exfalso; apply Ho; reflexivity); spec_inv; try congruence.
   all: try (exfalso; firstorder congruence).
 Qed.
 
-Lemma l_cancel_drop c i t l tb :
-  Linv c i t l -> cancel c = true -> r (snd (lpoll c i t l tb)) = 3 ->
-  linner (fst (lpoll c i t l tb)) = IDropped /\ lcs (fst (lpoll c i t l tb)) = Done.
+Lemma l_cancel_drop c i t l :
+  Linv c i t l -> cancel c = true -> r (snd (lpoll c i t l)) = 3 ->
+  linner (fst (lpoll c i t l)) = IDropped /\ lcs (fst (lpoll c i t l)) = Done.
 Proof.
-  intros H. poll_cases c tb; intros Hc Hr; try discriminate; auto.
+  intros H. poll_cases c; intros Hc Hr; try discriminate; auto.
 Qed.
 
 (* non-cancel mode: the inner call is started by the first poll and is never touched by
    polls or drops afterwards *)
-Lemma l_nocancel_poll c i t l tb :
+Lemma l_nocancel_poll c i t l :
   Linv c i t l -> cancel c = false ->
-  (lcs l = Created -> linner (fst (lpoll c i t l tb)) <> INone) /\
-  (linner l <> INone -> linner (fst (lpoll c i t l tb)) = linner l).
+  (lcs l = Created -> linner (fst (lpoll c i t l)) <> INone) /\
+  (linner l <> INone -> linner (fst (lpoll c i t l)) = linner l).
 Proof.
-  intros H. poll_cases c tb; intros Hc; try discriminate; split; intros; cbn; try congruence; auto.
+  intros H. poll_cases c; intros Hc; try discriminate; split; intros; cbn; try congruence; auto.
 Qed.
 
 Lemma l_nocancel_drop c l : cancel c = false -> linner (ldrop c l) = linner l.
@@ -293,8 +289,8 @@ Proof. intros H. unfold lcomplete. rewrite H. reflexivity. Qed.
 (* ---------- lifting to runs ---------- *)
 Ltac unf := unfold cs, inner, gate, woken, arrival in *.
 
-Lemma step_st_poll c s i tb :
-  step_st c s (Poll i tb) = on s i (fst (lpoll c i (now s) (callers s i) tb)).
+Lemma step_st_poll c s i :
+  step_st c s (Poll i) = on s i (fst (lpoll c i (now s) (callers s i))).
 Proof. unfold step_st. rewrite step_poll. reflexivity. Qed.
 
 Lemma deadline_from_first_poll c evs i :
@@ -302,7 +298,7 @@ Lemma deadline_from_first_poll c evs i :
   (cs s i = Created -> arrival s i = None /\ inner s i = INone) /\
   (forall a, arrival s i = Some a -> a <= now s /\ cs s i <> Created) /\
   (forall dl, cs s i = Active dl -> exists a, arrival s i = Some a /\ dl = a + tmo c i) /\
-  (forall tb, cs s i = Created -> arrival (step_st c s (Poll i tb)) i = Some (now s)) /\
+  (cs s i = Created -> arrival (step_st c s (Poll i)) i = Some (now s)) /\
   (forall e a, arrival s i = Some a -> arrival (step_st c s e) i = Some a) /\
   (forall j, step_st c s (Call j) = s).
 Proof.
@@ -314,12 +310,12 @@ Proof.
   - apply (H3 a); assumption.
   - apply (H3 a); assumption.
   - exact H2.
-  - intros tb Hc. rewrite step_st_poll, callers_on_same.
+  - intros Hc. rewrite step_st_poll, callers_on_same.
     destruct (callers s i) as [cs0 in0 g0 w0 a0]; cbn in *. subst cs0.
     unfold lpoll, poll_cancel, poll_select, task_run, rx_state, finish_inner; cbn.
     destruct (H1 eq_refl) as (-> & -> & ->).
-    destruct (cancel c); destruct g0 as [[]|]; cbn; try destruct (_ <=? _); try destruct tb; reflexivity.
-  - intros e a Ha. unfold step_st. destruct e as [j|j tb|j|d|j o].
+    destruct (cancel c); destruct g0 as [[]|]; cbn; try destruct (_ <=? _); reflexivity.
+  - intros e a Ha. unfold step_st. destruct e as [j|j|j|d|j o].
     + exact Ha.
     + rewrite step_poll. cbn [fst]. destruct (Nat.eq_dec i j) as [->|Hne].
       * rewrite callers_on_same.
@@ -327,7 +323,7 @@ Proof.
         unfold lpoll, poll_cancel, poll_select, task_run, rx_state, finish_inner; cbn.
         destruct (H3 a eq_refl) as [_ Hnc].
         destruct cs0; try congruence; cbn; destruct (cancel c); destruct g0 as [[]|]; cbn;
-          try destruct (_ <=? _); try destruct tb; try reflexivity;
+          try destruct (_ <=? _); try reflexivity;
           destruct in0 as [| |[]|]; reflexivity.
       * rewrite callers_on_other by exact Hne. exact Ha.
     + cbn [step fst]. destruct (Nat.eq_dec i j) as [->|Hne].
@@ -345,43 +341,43 @@ Proof.
       * rewrite callers_on_other by exact Hne. exact Ha.
 Qed.
 
-Lemma no_timeout_before_deadline c evs i tb :
+Lemma no_timeout_before_deadline c evs i :
   let s := run c evs in
-  r (snd (step c s (Poll i tb))) = 3 -> gate s i <> Some OPanic ->
-  exists a, arrival (step_st c s (Poll i tb)) i = Some a /\ a + tmo c i <= now s.
+  r (snd (step c s (Poll i))) = 3 -> gate s i <> Some OPanic ->
+  exists a, arrival (step_st c s (Poll i)) i = Some a /\ a + tmo c i <= now s.
 Proof.
   intros s. rewrite step_st_poll, step_poll. unf. rewrite callers_on_same. cbn [snd].
   apply l_no_early_timeout. apply linv_run.
 Qed.
 
-Lemma result_now c evs i tb o :
+Lemma result_now c evs i o :
   let s := run c evs in
   gate s i = Some o -> o <> OPanic ->
   (cancel c = true /\ (cs s i = Created \/ exists dl, cs s i = Active dl)) \/
-  (cancel c = false /\ exists dl, cs s i = Active dl /\ now s < dl) ->
-  snd (step c s (Poll i tb)) = result i o /\
-  cs (step_st c s (Poll i tb)) i = Done /\ inner (step_st c s (Poll i tb)) i = IFinished o.
+  (cancel c = false /\ exists dl, cs s i = Active dl) ->
+  snd (step c s (Poll i)) = result i o /\
+  cs (step_st c s (Poll i)) i = Done /\ inner (step_st c s (Poll i)) i = IFinished o.
 Proof.
   intros s. rewrite step_st_poll, step_poll. unf. rewrite callers_on_same. cbn [snd].
   apply l_result. apply linv_run.
 Qed.
 
-Lemma timeout_now c evs i tb :
+Lemma timeout_now c evs i :
   let s := run c evs in
   gate s i = None ->
   (exists dl, cs s i = Active dl /\ dl <= now s) \/ (cs s i = Created /\ tmo c i <= 0) ->
-  snd (step c s (Poll i tb)) = timed_out /\ cs (step_st c s (Poll i tb)) i = Done.
+  snd (step c s (Poll i)) = timed_out /\ cs (step_st c s (Poll i)) i = Done.
 Proof.
   intros s. rewrite step_st_poll, step_poll. unf. rewrite callers_on_same. cbn [snd].
   apply l_timeout. apply linv_run.
 Qed.
 
-Lemma pending_now c evs i tb :
+Lemma pending_now c evs i :
   let s := run c evs in
   gate s i = None ->
   (exists dl, cs s i = Active dl /\ now s < dl) \/ (cs s i = Created /\ 0 < tmo c i) ->
-  snd (step c s (Poll i tb)) = pending /\
-  exists dl, cs (step_st c s (Poll i tb)) i = Active dl /\ now s < dl.
+  snd (step c s (Poll i)) = pending /\
+  exists dl, cs (step_st c s (Poll i)) i = Active dl /\ now s < dl.
 Proof.
   intros s. rewrite step_st_poll, step_poll. unf. rewrite callers_on_same. cbn [snd].
   apply l_pending. apply linv_run.
@@ -397,12 +393,12 @@ Proof.
   - destruct (l_advance_core (now s) (now s + Z.max 0 d) (callers s i)) as (->&_). exact Hc.
 Qed.
 
-Lemma tie_either c evs i tb o dl :
+Lemma tie_either c evs i o dl :
   let s := run c evs in
   cs s i = Active dl -> gate s i = Some o -> o <> OPanic -> dl <= now s ->
-  snd (step c s (Poll i tb)) =
-    (if cancel c then result i o else if tb then timed_out else result i o) /\
-  cs (step_st c s (Poll i tb)) i = Done.
+  snd (step c s (Poll i)) =
+    result i o /\
+  cs (step_st c s (Poll i)) i = Done.
 Proof.
   intros s. rewrite step_st_poll, step_poll. unf. rewrite callers_on_same. cbn [snd].
   apply l_tie. apply linv_run.
@@ -412,20 +408,20 @@ Lemma cancel_drops c evs i :
   let s := run c evs in
   cancel c = true ->
   (inner s i = IRunning <-> exists dl, cs s i = Active dl) /\
-  (forall tb, r (snd (step c s (Poll i tb))) = 3 ->
-     inner (step_st c s (Poll i tb)) i = IDropped /\ cs (step_st c s (Poll i tb)) i = Done /\
-     exists a, arrival (step_st c s (Poll i tb)) i = Some a /\ a + tmo c i <= now s) /\
+  (r (snd (step c s (Poll i))) = 3 ->
+     inner (step_st c s (Poll i)) i = IDropped /\ cs (step_st c s (Poll i)) i = Done /\
+     exists a, arrival (step_st c s (Poll i)) i = Some a /\ a + tmo c i <= now s) /\
   ((exists dl, cs s i = Active dl) -> inner (step_st c s (Drop i)) i = IDropped).
 Proof.
   intros s Hc. pose proof (linv_run c evs i) as H. fold s in H. split; [|split].
   - destruct H as (H1&H2&H3&H4&H5&H6&H7&H8&H9). unf. apply H4. exact Hc.
-  - intros tb Hr. rewrite step_st_poll. rewrite step_poll in Hr. cbn [snd] in Hr.
+  - intros Hr. rewrite step_st_poll. rewrite step_poll in Hr. cbn [snd] in Hr.
     unf. rewrite callers_on_same.
-    destruct (l_cancel_drop c i _ _ tb H Hc Hr) as [Ha Hb]. repeat split; try assumption.
+    destruct (l_cancel_drop c i _ _ H Hc Hr) as [Ha Hb]. repeat split; try assumption.
     apply l_no_early_timeout; [exact H|exact Hr|].
     (* a panic is reported as a panic in cancel mode, never as Timeout *)
     intros Hg. revert Hr. clear -Hg Hc H.
-    poll_cases c tb; intros; try discriminate; try congruence.
+    poll_cases c; intros; try discriminate; try congruence.
   - intros [dl Hd]. unfold step_st. cbn [step fst]. unf. rewrite callers_on_same.
     destruct (callers s i) as [cs0 in0 g0 w0 a0]; cbn in *. subst cs0.
     unfold ldrop; cbn. rewrite Hc. reflexivity.
@@ -434,7 +430,7 @@ Qed.
 Lemma nocancel_runs_on c evs i :
   let s := run c evs in
   cancel c = false ->
-  (forall tb, cs s i = Created -> inner (step_st c s (Poll i tb)) i <> INone) /\
+  (cs s i = Created -> inner (step_st c s (Poll i)) i <> INone) /\
   (inner s i = IDropped -> gate s i = Some OPanic) /\
   (forall e, inner s i = IRunning ->
      inner (step_st c s e) i = IRunning \/ exists o, e = Complete i o) /\
@@ -445,10 +441,10 @@ Proof.
   intros s Hc. pose proof (linv_run c evs i) as H. fold s in H.
   assert (Hstep : forall e, (forall o, e <> Complete i o) -> inner s i <> INone ->
                     inner (step_st c s e) i = inner s i).
-  { intros e He Hn. unfold step_st. destruct e as [j|j tb|j|d|j o]; unf.
+  { intros e He Hn. unfold step_st. destruct e as [j|j|j|d|j o]; unf.
     - reflexivity.
     - rewrite step_poll. cbn [fst]. destruct (Nat.eq_dec i j) as [->|Hne].
-      + rewrite callers_on_same. apply (l_nocancel_poll c j _ _ tb (linv_run c evs j) Hc). exact Hn.
+      + rewrite callers_on_same. apply (l_nocancel_poll c j _ _ (linv_run c evs j) Hc). exact Hn.
       + rewrite callers_on_other by exact Hne. reflexivity.
     - cbn [step fst]. destruct (Nat.eq_dec i j) as [->|Hne].
       + rewrite callers_on_same. apply l_nocancel_drop. exact Hc.
@@ -458,17 +454,17 @@ Proof.
       + exfalso. apply (He o). reflexivity.
       + rewrite callers_on_other by exact Hne. reflexivity. }
   repeat split.
-  - intros tb Hcr. rewrite step_st_poll. unf. rewrite callers_on_same.
-    apply (l_nocancel_poll c i _ _ tb H Hc). exact Hcr.
+  - intros Hcr. rewrite step_st_poll. unf. rewrite callers_on_same.
+    apply (l_nocancel_poll c i _ _ H Hc). exact Hcr.
   - destruct H as (H1&H2&H3&H4&H5&H6&H7&H8&H9). unf. apply H8. exact Hc.
-  - intros e Hr. destruct e as [j|j tb|j|d|j o].
+  - intros e Hr. destruct e as [j|j|j|d|j o].
     5: destruct (Nat.eq_dec j i) as [->|Hne]; [right; eexists; reflexivity|].
     all: left; rewrite Hstep; try exact Hr; try (intros o' Ho'; discriminate); try congruence.
   - intros o Hr. unfold step_st. cbn [step fst]. unf. rewrite callers_on_same.
     assert (Hg : lgate (callers s i) = None).
     { destruct H as (H1&H2&H3&H4&H5&H6&H7&H8&H9). apply H6; assumption. }
     apply (l_complete c i _ _ o H Hg); assumption.
-  - intros e o Hf. destruct e as [j|j tb|j|d|j o'].
+  - intros e o Hf. destruct e as [j|j|j|d|j o'].
     5: destruct (Nat.eq_dec j i) as [->|Hne].
     5: { unfold step_st. cbn [step fst]. unf. rewrite callers_on_same.
          destruct H as (H1&H2&H3&H4&H5&H6&H7&H8&H9). destruct (H7 o Hf) as [Hg _].
@@ -480,14 +476,14 @@ Qed.
 Definition core (l : loc) := (lcs l, linner l, lgate l, larrival l).
 
 Lemma quiet_step c s e i :
-  e <> Drop i -> (forall tb, e <> Poll i tb) ->
+  e <> Drop i -> e <> Poll i ->
   (lgate (callers s i) <> None \/ forall o, e <> Complete i o) ->
   core (callers (step_st c s e) i) = core (callers s i) /\ now s <= now (step_st c s e).
 Proof.
-  intros Hd Hp Hc. unfold step_st. destruct e as [j|j tb|j|d|j o].
+  intros Hd Hp Hc. unfold step_st. destruct e as [j|j|j|d|j o].
   - cbn [step fst]. split; [reflexivity|lia].
   - rewrite step_poll. cbn [fst now on]. destruct (Nat.eq_dec i j) as [->|Hne].
-    + exfalso. apply (Hp tb). reflexivity.
+    + exfalso. apply Hp. reflexivity.
     + rewrite callers_on_other by exact Hne. split; [reflexivity|lia].
   - cbn [step fst now on]. destruct (Nat.eq_dec i j) as [->|Hne].
     + exfalso. apply Hd. reflexivity.
@@ -503,7 +499,7 @@ Proof.
 Qed.
 
 Lemma quiet_run c evs s i :
-  (forall e, In e evs -> e <> Drop i /\ (forall tb, e <> Poll i tb) /\
+  (forall e, In e evs -> e <> Drop i /\ e <> Poll i /\
      (lgate (callers s i) <> None \/ forall o, e <> Complete i o)) ->
   core (callers (fold_left (step_st c) evs s) i) = core (callers s i) /\
   now s <= now (fold_left (step_st c) evs s).
@@ -521,17 +517,16 @@ Qed.
 Lemma run_app c evs1 evs2 : run c (evs1 ++ evs2) = fold_left (step_st c) evs2 (run c evs1).
 Proof. unfold run. apply fold_left_app. Qed.
 
-Lemma result_if_before c evs1 i o evs2 tb dl :
+Lemma result_if_before c evs1 i o evs2 dl :
   let s1 := run c evs1 in
   cs s1 i = Active dl -> gate s1 i = None -> o <> OPanic ->
-  (forall e, In e evs2 -> e <> Drop i /\ forall tb', e <> Poll i tb') ->
+  (forall e, In e evs2 -> e <> Drop i /\ e <> Poll i) ->
   let s2 := run c (evs1 ++ Complete i o :: evs2) in
-  (cancel c = true \/ now s2 < dl) ->
   woken (step_st c s1 (Complete i o)) i = true /\
-  snd (step c s2 (Poll i tb)) = result i o /\
-  cs (step_st c s2 (Poll i tb)) i = Done /\ inner (step_st c s2 (Poll i tb)) i = IFinished o.
+  snd (step c s2 (Poll i)) = result i o /\
+  cs (step_st c s2 (Poll i)) i = Done /\ inner (step_st c s2 (Poll i)) i = IFinished o.
 Proof.
-  intros s1 Hc Hg Ho Hq s2 Hm.
+  intros s1 Hc Hg Ho Hq s2.
   pose proof (linv_run c evs1 i) as H1. fold s1 in H1. unf.
   destruct (l_complete c i _ _ o H1 Hg) as (Hg' & Hc' & _ & Hw & _).
   set (s1' := step_st c s1 (Complete i o)).
@@ -546,30 +541,28 @@ Proof.
     left. rewrite Hs1', Hg'. discriminate. }
   rewrite <- Hs2 in Hcore. unfold core in Hcore. rewrite Hs1' in Hcore.
   injection Hcore as Hcs _ Hgt _.
-  apply (result_now c (evs1 ++ Complete i o :: evs2) i tb o); fold s2; unf.
+  apply (result_now c (evs1 ++ Complete i o :: evs2) i o); fold s2; unf.
   - rewrite Hgt. exact Hg'.
   - exact Ho.
-  - destruct Hm as [Hm|Hm].
-    + left. split; [exact Hm|]. right. exists dl. rewrite Hcs, Hc'. exact Hc.
-    + destruct (cancel c) eqn:Ec.
-      * left. split; [reflexivity|]. right. exists dl. rewrite Hcs, Hc'. exact Hc.
-      * right. split; [reflexivity|]. exists dl. split; [|exact Hm]. rewrite Hcs, Hc'. exact Hc.
+  - destruct (cancel c) eqn:Ec.
+    + left. split; [reflexivity|]. right. exists dl. rewrite Hcs, Hc'. exact Hc.
+    + right. split; [reflexivity|]. exists dl. rewrite Hcs, Hc'. exact Hc.
 Qed.
 
-Lemma timeout_if_after c evs1 i evs2 tb dl :
+Lemma timeout_if_after c evs1 i evs2 dl :
   let s1 := run c evs1 in
   cs s1 i = Active dl -> gate s1 i = None ->
-  (forall e, In e evs2 -> e <> Drop i /\ (forall tb', e <> Poll i tb') /\ forall o, e <> Complete i o) ->
+  (forall e, In e evs2 -> e <> Drop i /\ e <> Poll i /\ forall o, e <> Complete i o) ->
   let s2 := run c (evs1 ++ evs2) in
   dl <= now s2 ->
-  snd (step c s2 (Poll i tb)) = timed_out /\ cs (step_st c s2 (Poll i tb)) i = Done.
+  snd (step c s2 (Poll i)) = timed_out /\ cs (step_st c s2 (Poll i)) i = Done.
 Proof.
   intros s1 Hc Hg Hq s2 Hd. unf.
   assert (Hs2 : s2 = fold_left (step_st c) evs2 s1) by (unfold s2; apply run_app).
   destruct (quiet_run c evs2 s1 i) as [Hcore Hnow].
   { intros e Hin. destruct (Hq e Hin) as (Ha & Hb & Hcc). repeat split; auto. }
   rewrite <- Hs2 in Hcore. unfold core in Hcore. injection Hcore as Hcs _ Hgt _.
-  apply (timeout_now c (evs1 ++ evs2) i tb); fold s2; unf.
+  apply (timeout_now c (evs1 ++ evs2) i); fold s2; unf.
   - rewrite Hgt. exact Hg.
   - left. exists dl. split; [rewrite Hcs; exact Hc|exact Hd].
 Qed.
@@ -578,7 +571,7 @@ Qed.
 Definition concerns (i : nat) (e : ev) : bool :=
   match e with
   | Advance _ => true
-  | Call j | Poll j _ | Drop j | Complete j _ => Nat.eqb j i
+  | Call j | Poll j | Drop j | Complete j _ => Nat.eqb j i
   end.
 
 Lemma step_rel c e i s s' :
@@ -586,7 +579,7 @@ Lemma step_rel c e i s s' :
   now (step_st c s e) = now (step_st c s' e) /\
   callers (step_st c s e) i = callers (step_st c s' e) i.
 Proof.
-  intros Hn Hc Ek. unfold step_st. destruct e as [j|j tb|j|d|j o]; cbn in Ek;
+  intros Hn Hc Ek. unfold step_st. destruct e as [j|j|j|d|j o]; cbn in Ek;
     try (apply Nat.eqb_eq in Ek; subst j).
   - cbn [step fst]. split; assumption.
   - rewrite !step_poll. cbn [fst now on]. rewrite !callers_on_same. rewrite Hn, Hc. split; reflexivity.
@@ -599,7 +592,7 @@ Qed.
 Lemma other_caller_frame c s e i :
   concerns i e = false -> callers (step_st c s e) i = callers s i /\ now (step_st c s e) = now s.
 Proof.
-  intros Ek. unfold step_st. destruct e as [j|j tb|j|d|j o]; cbn in Ek; try discriminate;
+  intros Ek. unfold step_st. destruct e as [j|j|j|d|j o]; cbn in Ek; try discriminate;
     apply Nat.eqb_neq in Ek.
   - cbn [step fst]. split; reflexivity.
   - rewrite step_poll. cbn [fst now on]. rewrite callers_on_other by congruence. split; reflexivity.
@@ -623,12 +616,12 @@ Qed.
 Lemma calls_independent c evs i :
   let s := run c evs in let s' := run c (filter (concerns i) evs) in
   now s = now s' /\ callers s i = callers s' i /\
-  forall tb, snd (step c s (Poll i tb)) = snd (step c s' (Poll i tb)).
+  snd (step c s (Poll i)) = snd (step c s' (Poll i)).
 Proof.
   intros s s'. destruct (indep_gen c i evs init init eq_refl eq_refl) as [Hn Hc].
   fold (run c evs) in Hn, Hc. fold (run c (filter (concerns i) evs)) in Hn, Hc.
   fold s in Hn, Hc. fold s' in Hn, Hc.
-  repeat split; try assumption. intros tb. rewrite !step_poll. cbn [snd]. rewrite Hn, Hc. reflexivity.
+  repeat split; try assumption. rewrite !step_poll. cbn [snd]. rewrite Hn, Hc. reflexivity.
 Qed.
 
 
@@ -638,60 +631,61 @@ Definition c_nocancel : cfg := {| cancel := false; tmo := fun i => if Nat.eqb i 
 
 (* inner result strictly before the deadline: delivered at the next poll, both modes *)
 Example ex_result_before_cancel :
-  let s := run c_cancel [Poll 0 false; Advance 9; Complete 0 OErr] in
+  let s := run c_cancel [Poll 0; Advance 9; Complete 0 OErr] in
   cs s 0%nat = Active 10 /\ gate s 0%nat = Some OErr /\ now s = 9 /\ woken s 0%nat = true /\
-  snd (step c_cancel s (Poll 0 true)) = result 0 OErr.
+  snd (step c_cancel s (Poll 0)) = result 0 OErr.
 Proof. vm_compute. repeat split; reflexivity. Qed.
 
 Example ex_result_before_nocancel :
-  let s := run c_nocancel [Call 0; Advance 3; Poll 0 false; Advance 9; Complete 0 OOk] in
+  let s := run c_nocancel [Call 0; Advance 3; Poll 0; Advance 9; Complete 0 OOk] in
   cs s 0%nat = Active 13 /\ gate s 0%nat = Some OOk /\ now s = 12 /\ woken s 0%nat = true /\
-  inner s 0%nat = IFinished OOk /\ snd (step c_nocancel s (Poll 0 true)) = result 0 OOk.
+  inner s 0%nat = IFinished OOk /\ snd (step c_nocancel s (Poll 0)) = result 0 OOk.
 Proof. vm_compute. repeat split; reflexivity. Qed.
 
 (* inner unfinished at the deadline: woken by the timer, Timeout at the poll; the inner future is
    dropped in cancel mode and keeps running (and later finishes) in non-cancel mode *)
 Example ex_timeout_cancel :
-  let s := run c_cancel [Poll 0 false; Advance 10] in
+  let s := run c_cancel [Poll 0; Advance 10] in
   cs s 0%nat = Active 10 /\ gate s 0%nat = None /\ now s = 10 /\ woken s 0%nat = true /\
   inner s 0%nat = IRunning /\
-  snd (step c_cancel s (Poll 0 false)) = timed_out /\
-  inner (step_st c_cancel s (Poll 0 false)) 0%nat = IDropped.
+  snd (step c_cancel s (Poll 0)) = timed_out /\
+  inner (step_st c_cancel s (Poll 0)) 0%nat = IDropped.
 Proof. vm_compute. repeat split; reflexivity. Qed.
 
 Example ex_timeout_nocancel_runs_on :
-  let s := run c_nocancel [Poll 0 false; Advance 10; Poll 0 false] in
+  let s := run c_nocancel [Poll 0; Advance 10; Poll 0] in
   cs s 0%nat = Done /\ inner s 0%nat = IRunning /\
   inner (step_st c_nocancel s (Complete 0 OOk)) 0%nat = IFinished OOk /\
-  inner (run c_nocancel [Poll 0 false; Drop 0; Advance 50; Complete 0 OErr]) 0%nat = IFinished OErr.
+  inner (run c_nocancel [Poll 0; Drop 0; Advance 50; Complete 0 OErr]) 0%nat = IFinished OErr.
 Proof. vm_compute. repeat split; reflexivity. Qed.
 
-(* exact tie: inner completes at the deadline instant *)
+(* exact tie: inner completes at the deadline instant - the result wins in both modes *)
 Example ex_tie :
-  let evs := [Poll 0 false; Advance 10; Complete 0 OOk] in
-  snd (step c_cancel (run c_cancel evs) (Poll 0 true)) = result 0 OOk /\
-  snd (step c_nocancel (run c_nocancel evs) (Poll 0 true)) = timed_out /\
-  snd (step c_nocancel (run c_nocancel evs) (Poll 0 false)) = result 0 OOk.
+  let evs := [Poll 0; Advance 10; Complete 0 OOk] in
+  cs (run c_cancel evs) 0%nat = Active 10 /\ now (run c_cancel evs) = 10 /\
+  snd (step c_cancel (run c_cancel evs) (Poll 0)) = result 0 OOk /\
+  snd (step c_nocancel (run c_nocancel evs) (Poll 0)) = result 0 OOk.
 Proof. vm_compute. repeat split; reflexivity. Qed.
 
 (* several concurrent calls with different deadlines *)
 Example ex_concurrent :
-  let evs := [Poll 0 false; Advance 5; Poll 1 false; Advance 5; Poll 0 false; Complete 1 OOk; Advance 24] in
+  let evs := [Poll 0; Advance 5; Poll 1; Advance 5; Poll 0; Complete 1 OOk; Advance 24] in
   let s := run c_nocancel evs in
   cs s 0%nat = Done /\ cs s 1%nat = Active 30 /\ now s = 34 /\
-  filter (concerns 1) evs = [Advance 5; Poll 1 false; Advance 5; Complete 1 OOk; Advance 24].
+  filter (concerns 1) evs = [Advance 5; Poll 1; Advance 5; Complete 1 OOk; Advance 24].
 Proof. vm_compute. repeat split; reflexivity. Qed.
 
-(* behaviour the property does not cover, kept visible:
-   (a) non-cancel mode, result available strictly before the deadline but the future is polled
-       only at/after the deadline: select! may still pick the timer;
-   (b) non-cancel mode, inner panic: reported as Timeout, before the deadline *)
-Example ex_nocancel_late_poll_may_time_out :
-  let s := run c_nocancel [Poll 0 false; Advance 2; Complete 0 OOk; Advance 8] in
-  inner s 0%nat = IFinished OOk /\ snd (step c_nocancel s (Poll 0 true)) = timed_out.
+(* a result that was available strictly before the deadline is returned even when the future is
+   polled only at/after the deadline (non-cancel mode: biased select!, receiver first) *)
+Example ex_nocancel_late_poll_gets_result :
+  let s := run c_nocancel [Poll 0; Advance 2; Complete 0 OOk; Advance 8] in
+  inner s 0%nat = IFinished OOk /\ now s = 10 /\ cs s 0%nat = Active 10 /\
+  snd (step c_nocancel s (Poll 0)) = result 0 OOk.
 Proof. vm_compute. repeat split; reflexivity. Qed.
 
+(* behaviour the property does not cover, kept visible: non-cancel mode, inner panic: reported
+   as Timeout, before the deadline *)
 Example ex_nocancel_panic_is_timeout :
-  let s := run c_nocancel [Poll 0 false; Advance 2; Complete 0 OPanic] in
-  now s = 2 /\ snd (step c_nocancel s (Poll 0 false)) = timed_out.
+  let s := run c_nocancel [Poll 0; Advance 2; Complete 0 OPanic] in
+  now s = 2 /\ snd (step c_nocancel s (Poll 0)) = timed_out.
 Proof. vm_compute. repeat split; reflexivity. Qed.
